@@ -16,6 +16,10 @@ def run(ctx):
     # client does not produce): the accepted cases of EchHello.tla
     import echcommon
     echcommon.run_family(ctx, ["MCEchHello_c03.cfg"], sample=200 if ctx.quick else None, what="C01 names of the inner hello")
+    # ... and for every key set the operator may configure (several keys per config id, configs with different suite lists, keys that
+    # cannot open): whenever the specification says the client encrypted to a held key, the Conn routes on the inner hello
+    echcommon.run_family(ctx, ["MCEchHello_c09q.cfg"], select=lambda c: c["res"]["kind"] == "accept", sample=250 if ctx.quick else 4000,
+                         what="C01 key sets")
     ctx.mc("MCEchE2E", "MCEchE2E.cfg", timeout=600)
     base = ctx.emit("MCEchE2E", "MCEchE2E.cfg", timeout=600, workers=1, name="scen")
     n = 90 if ctx.quick else 3000
